@@ -97,6 +97,44 @@ def run(ctx):
                 ctx.prop_fail('stream of %d back-to-back encodings (%d octets) from a %s source: %d objects, outcome %r' % (
                     n, len(data), 'seekable' if seekable else 'non-seekable', len(objs), out),
                     {'encoding': one.hex(), 'n': n, 'seekable': seekable})
+    # real buffered files: back-to-back items, the last inner end-of-octets marker placed at every offset around the
+    # reader's buffer boundary (one-shot decode + tail, and the streaming decoder with positions)
+    import os as _os, tempfile
+    BUF = io.DEFAULT_BUFFER_SIZE
+    so = univ.SequenceOf(componentType=univ.OctetString())
+    for off in (list(range(BUF - 6, BUF + 7)) if ctx.tier != 'quick' else [BUF - 3, BUF - 2, BUF - 1, BUF, BUF + 1]):
+        # 30 80 (04 82 hi lo <n octets>) 00 00 : the marker's first octet sits at file offset `off`
+        n = off - 6
+        v = so.clone(); v.clear(); v.append(bytes([0x5a]) * n)
+        first = benc.encode(v, defMode=False)
+        assert first[-2:] == b'\x00\x00' and len(first) - 2 == off, (len(first), off)
+        second = benc.encode(univ.Integer(7))
+        data = first + second + first
+        fd, path = tempfile.mkstemp(dir=core.WORK, prefix='c07_'); _os.close(fd)
+        try:
+            with open(path, 'wb') as f: f.write(data)
+            with open(path, 'rb') as f:
+                try:
+                    v1, rest = I.DEC['BER'].decode(f, asn1Spec=so)
+                    bad = None if (bytes(v1[0]) == bytes([0x5a]) * n and bytes(rest) == data[len(first):]) else 'wrong value or remainder (%d octets)' % len(bytes(rest))
+                except Exception as e:
+                    bad = '%s: %s' % (type(e).__name__, str(e)[:100])
+            ctx.case(('file-eoo', off, 'decode'), True)
+            if bad:
+                ctx.prop_fail('one-shot decode from a buffered file, end-of-octets at offset %d: %s' % (off, bad), {'offset': off, 'kind': 'file-eoo'})
+            with open(path, 'rb') as f:
+                try:
+                    objs = [(x, f.tell()) for x in I.DEC['BER'].StreamingDecoder(f)]
+                    got = [p for _, p in objs]
+                    err = None
+                except Exception as e:
+                    got, err = None, '%s: %s' % (type(e).__name__, str(e)[:100])
+            ctx.case(('file-eoo', off, 'stream'), True)
+            if got != [len(first), len(first) + len(second), len(data)]:
+                ctx.prop_fail('streaming decoder over a buffered file, end-of-octets at offset %d: positions %r %s' % (off, got, err or ''),
+                              {'offset': off, 'kind': 'file-eoo-stream'})
+        finally:
+            _os.unlink(path)
     if meta: ctx.sample(meta[0]); ctx.sample(meta[-1])
     if not search_only:
         codes = core.coq_codes('c07', 'Model.Dec Model.Obs', exprs)
